@@ -50,6 +50,14 @@ func genCalls(r *lib.Rng, p *c10Pool, st map[string]int) []c10Call {
 	}
 	var calls []c10Call
 	seen := map[string]bool{}
+	if p.Class == "invalid" {
+		cats = []int{0, 0, 0, 0, 2, 3, 3, 4, 5}
+		for _, cl := range errorCalls(p) {
+			seen[cl.Key] = true
+			calls = append(calls, cl)
+			st["op_"+strings.SplitN(cl.Key, ":", 2)[0]]++
+		}
+	}
 	for _, c := range cats {
 		for tries := 0; tries < 5; tries++ {
 			cl := genCall(r, p, c)
@@ -129,7 +137,7 @@ func main() {
 			prev, had := first[ci]
 			if !had {
 				first[ci] = obs
-				if canon != "" && len(canons) < 6 {
+				if canon != "" && len(canons) < 6 && p.Class != "invalid" { // results on invalid input carry no order guarantee
 					canons = append(canons, c.Key+"="+canon)
 				}
 			} else if prev != obs && len(notes) < 3 {
@@ -139,7 +147,13 @@ func main() {
 			if sd != store0 && len(notes) < 3 {
 				notes = append(notes, fmt.Sprintf("operands changed after call %s: was %s now %s", c.Key, clip(store0, 300), clip(sd, 300)))
 			}
-			events = append(events, c.Key+"#"+digest(obs)+"#"+digest(sd))
+			tok := digest(obs)
+			if strings.HasPrefix(obs, "E:") {
+				tok = "E" + tok // the result is an error: its full text is what is digested
+			} else if strings.HasPrefix(obs, "P:") {
+				tok = "P" + tok
+			}
+			events = append(events, c.Key+"#"+tok+"#"+digest(sd))
 			// results of earlier calls are values too: re-observe the retained ones after this call
 			if nk := len(keeper.reobs); nk > 0 {
 				var sb strings.Builder
